@@ -116,6 +116,20 @@ type arch struct {
 	VolB     map[string][]byte // their pristine bytes
 	VolExps  map[string][]int  // exponents per volume file (by the independent tokenizer)
 	Others   map[string][]byte // bystander files (relative path -> bytes)
+	// what par2.Create did to the directory (relative paths)
+	CreateCreated, CreateChanged []string
+}
+
+// dirsOut drops directories (their mtime changes when entries are created in them).
+func dirsOut(snap sandbox.Snapshot, paths []string) []string {
+	out := []string{}
+	for _, p := range paths {
+		if e, ok := snap[p]; ok && e.IsDir {
+			continue
+		}
+		out = append(out, p)
+	}
+	return out
 }
 
 func relTo(dir, p string) string {
@@ -141,11 +155,17 @@ func buildArch(dir string, names []string, prot map[string][]byte, s, r, g int, 
 		paths = append(paths, p)
 	}
 	index := filepath.Join(dir, base+".par2")
+	sandbox.WriteFile(filepath.Join(dir, "bystander.txt"), []byte("bystander"))
+	snapBefore, _ := sandbox.Take(dir)
 	err := par2.Create(index, paths, par2.CreateOptions{SliceByteCount: s, NumParityShards: r, NumGoroutines: g})
 	if err != nil {
 		return nil, fmt.Errorf("par2.Create: %v", err)
 	}
-	a := &arch{Names: names, Prot: prot, S: s, R: r, Index: base + ".par2", VolB: map[string][]byte{}, VolExps: map[string][]int{}, Others: map[string][]byte{}}
+	snapAfter, _ := sandbox.Take(dir)
+	os.Remove(filepath.Join(dir, "bystander.txt"))
+	cr, del, chg, tch := sandbox.Diff(snapBefore, snapAfter)
+	a := &arch{CreateCreated: sandbox.NonNil(cr), CreateChanged: sandbox.NonNil(dirsOut(snapAfter, append(append(del, chg...), tch...))),
+		Names: names, Prot: prot, S: s, R: r, Index: base + ".par2", VolB: map[string][]byte{}, VolExps: map[string][]int{}, Others: map[string][]byte{}}
 	a.IndexB, err = ioutil.ReadFile(index)
 	if err != nil {
 		return nil, err
